@@ -699,6 +699,11 @@ class ExcelCompiler:
                 cell = self.cell_map.get(addr.address, None)
                 formula = cell and cell.formula.base_formula
                 exc_str = str(exc)
+                if verify_tree and cell is not None and addr not in verified:
+                    # the cells it was calculated from still need verifying
+                    verified.add(addr)
+                    to_verify.extend(needed for needed in cell.needed_addresses
+                                     if needed not in verified)
                 exc_str_split = exc_str.split('\n')
 
                 if 'is not implemented' in exc_str:
